@@ -12,7 +12,7 @@ from harness.core.util import call
 RULE = ('1-D point sets (random dyadic positions, duplicates, uniform grids, 1..12 points) compared with the exact rational Lean model of dcf_1d; '
         'trajectories in 1/2/3 D (radial, spiral-like, random, with duplicates, separable Cartesian layouts) through DcfData.from_traj_voronoi: '
         'positivity/finiteness, permutation equivariance, |a|^d scaling, equal sharing among duplicates, translation/rotation invariance and '
-        'uniform-grid constancy for bounded interior cells, product rule for separable layouts. partially broadcast 3-D layouts (every direction along its own subset of k2, k1, k0; chain and random patterns): exponent of |a| under isotropic scaling = number of directions with an extent = the Lean model's degree, broadcast form = dense form where every direction is coupled. distinct = distinct point-set key')
+        'uniform-grid constancy for bounded interior cells, product rule for separable layouts. partially broadcast 3-D layouts (every direction along its own subset of k2, k1, k0; chain and random patterns): exponent of |a| under isotropic scaling = number of directions with an extent = the degree of the Lean model, broadcast form = dense form where every direction is coupled. distinct = distinct point-set key')
 ASSUMPTIONS = ['scipy.spatial.Voronoi / ConvexHull (qhull) cell volumes are a parameter of the model', 'float32 output: tolerance 1e-4 relative']
 
 
